@@ -410,14 +410,16 @@ def check_case(ctx, case, record=True):
 
 TZ_TRANSITIONS = [("America/New_York", 1636264800), ("Europe/London", 1635642000),
                   ("Australia/Lord_Howe", 1617462000), ("America/St_Johns", 1636259400),
-                  ("America/New_York", 1615705200), ("UTC", 1636264800), ("Asia/Kolkata", 1636264800)]
+                  ("America/New_York", 1615705200), ("UTC", 1636264800), ("Asia/Kolkata", 1636264800),
+                  # files stamped with the Unix epoch itself (reproducible-build tooling, `touch -d @0`) and around it
+                  ("UTC", 0), ("America/New_York", 0)]
 
 
 @st.composite
 def tz_cases(draw):
     zone, base = draw(st.sampled_from(TZ_TRANSITIONS))
     near = st.one_of(st.integers(-3700, 3700), st.sampled_from([-3600, -1800, -1, 0, 1, 1800, 3599, 3600]))
-    instants = sorted({base + draw(near) for _ in range(draw(st.integers(2, 4)))})
+    instants = sorted({max(0, base + draw(near)) for _ in range(draw(st.integers(2, 4)))})
     return {"fam": "tz", "zone": zone, "kind": draw(st.sampled_from(["json", "pickle", "text", "binary", "touch"])),
             "mounted": False, "pathlib": draw(st.booleans()), "encoding": None, "instants": instants}
 
@@ -430,7 +432,8 @@ def check_tz_case(ctx, case, record=True):
     import time as _time
 
     if record:
-        ctx.case(case, case["zone"] != "UTC", [f"tz:{case['zone']}", "fam:tz", f"kind:{case['kind']}"])
+        ctx.case(case, case["zone"] != "UTC" or 0 in case["instants"],
+                 [f"tz:{case['zone']}", "fam:tz", f"kind:{case['kind']}"] + (["mtime_is_unix_epoch"] if 0 in case["instants"] else []))
     directory = tempfile.mkdtemp(prefix="c12-")
     old = os.environ.get("TZ")
     os.environ["TZ"] = case["zone"]
